@@ -9,7 +9,14 @@
      triangle, and the located position of a centre is its own (C17): positions and cells correspond
      one-to-one;
    - all pentagons of one depth are congruent and their areas add up to the quintant, the face and
-     twelve faces (C04): there is exactly enough area for a partition. *)
+     twelve faces (C04): there is exactly enough area for a partition;
+   - within a quintant, every depth 1..29 (Hilbert/TilingDisjoint.v, TilingCover.v; second half of this file):
+     the cells are the tiles of a periodic tiling by four pentagon shapes, one per unit lattice triangle of the
+     quintant triangle (one-to-one, the same set for all six orientations); two different cells have no common
+     point more than 1e-16 (cross-product units; 1.4e-16 lattice units) inside both; every point of a lattice
+     triangle lies within 2^-54 of the tile of that triangle or of two named neighbours.  The exact versions
+     (strictly disjoint interiors, exact coverage) are FALSE in the exact rational model because the f64
+     pentagon constants are not exactly symmetric: kernel-checked counterexamples below. *)
 From Coq Require Import ZArith QArith List Bool.
 From A5 Require Import Base.Outcome Num.NumOps Num.QInst Id.Codec Id.CodecSpec Id.CodecProofs
   Hilbert.Hilbert Hilbert.LocateProofs Hilbert.CurveBijection Geo.Tiling Geo.AreaProofs.
@@ -46,3 +53,134 @@ Theorem C03_planar_area_times_count_cell : forall (r q : Z) (a : anchor) (l : li
   (Qabs.Qabs (get_area QInst l / 2 * inject_Z (N r) - 12 * A_face) <= eps15 * (12 * A_face))%Q.
 Proof. exact planar_area_times_count_cell. Qed.
 Print Assumptions C03_planar_area_times_count_cell.
+
+(* ---- planar tiling within a quintant (Hilbert/TilingDisjoint.v), every depth 1..29, exact rational model,
+   unscaled lattice units.  crosses l w lists the edge cross products (v1 - v2) x (w - v1) of the pentagon l at
+   the point w (all >= 0: contains_point; all > 0: strictly inside; cross = edge length x distance from the
+   edge line, edge length 0.425).  Two different cells have no point whose cross products all exceed 1e-16 in
+   both (the proof gives 2^-54): common points lie within 1.4e-16 lattice units of a boundary.  With 0 in
+   place of 1e-16 the statement is false in the exact model: C03_tiles_exact_disjoint_refuted. *)
+From A5 Require Import Hilbert.ChildProofs Hilbert.TilingDisjoint.
+Open Scope Z_scope.
+
+Theorem C03_cells_eps_disjoint (n : nat) (o s1 s2 : Z) (l1 l2 : list (Q * Q)) :
+  (1 <= n <= 29)%nat -> 0 <= o < 6 -> 0 <= s1 < 4 ^ Z.of_nat n -> 0 <= s2 < 4 ^ Z.of_nat n ->
+  get_pentagon_vertices QInst 0 0 (s_to_anchor s1 n o) = Some l1 ->
+  get_pentagon_vertices QInst 0 0 (s_to_anchor s2 n o) = Some l2 ->
+  s1 <> s2 ->
+  forall w : Q * Q,
+    ~ (Forall (fun c => (1 # 10000000000000000) < c)%Q (crosses QInst l1 w) /\
+       Forall (fun c => (1 # 10000000000000000) < c)%Q (crosses QInst l2 w)).
+Proof. exact (cells_eps_disjoint n o s1 s2 l1 l2). Qed.
+Print Assumptions C03_cells_eps_disjoint.
+
+(* two orientations: the six orientations enumerate the same tiles; any two cells of one depth are the same
+   pentagon (vertex by vertex, equal rationals) or disjoint in the above sense *)
+Theorem C03_cells_equal_or_eps_disjoint (n : nat) (o1 o2 s1 s2 : Z) (l1 l2 : list (Q * Q)) :
+  (1 <= n <= 29)%nat -> 0 <= o1 < 6 -> 0 <= o2 < 6 -> 0 <= s1 < 4 ^ Z.of_nat n -> 0 <= s2 < 4 ^ Z.of_nat n ->
+  get_pentagon_vertices QInst 0 0 (s_to_anchor s1 n o1) = Some l1 ->
+  get_pentagon_vertices QInst 0 0 (s_to_anchor s2 n o2) = Some l2 ->
+  Forall2 (fun p q : Q * Q => fst p == fst q /\ snd p == snd q)%Q l1 l2 \/
+  forall w : Q * Q,
+    ~ (Forall (fun c => (1 # 10000000000000000) < c)%Q (crosses QInst l1 w) /\
+       Forall (fun c => (1 # 10000000000000000) < c)%Q (crosses QInst l2 w)).
+Proof. exact (cells_equal_or_eps_disjoint n o1 o2 s1 s2 l1 l2). Qed.
+Print Assumptions C03_cells_equal_or_eps_disjoint.
+
+(* the strict statement (eps = 0) fails: depth 1, orientation 0, positions 0 and 3, and the point
+   w0 = (103435060746689023 / 2^57, 4707541810747495 / 2^54) *)
+Theorem C03_tiles_exact_disjoint_refuted :
+  exists l1 l2, get_pentagon_vertices QInst 0 0 (s_to_anchor 0 1 0) = Some l1 /\
+    get_pentagon_vertices QInst 0 0 (s_to_anchor 3 1 0) = Some l2 /\
+    Forall (fun c => 0 < c)%Q (crosses QInst l1 (103435060746689023 # 144115188075855872, 4707541810747495 # 18014398509481984)%Q) /\
+    Forall (fun c => 0 < c)%Q (crosses QInst l2 (103435060746689023 # 144115188075855872, 4707541810747495 # 18014398509481984)%Q).
+Proof. exact tiles_exact_disjoint_refuted. Qed.
+Print Assumptions C03_tiles_exact_disjoint_refuted.
+
+(* canonical form: every cell is (vertex by vertex) the canonical tile of a unit lattice triangle
+   t = ((fi, fj), up) of the quintant triangle: canon_tile t = shape (parity of fi + fj) up + BASIS * (fi, fj)
+   (four shapes); the cell's centre lies in t with margin 1/10 (in_tri) *)
+Theorem C03_cell_is_canonical_tile (n : nat) (o s : Z) :
+  (1 <= n <= 29)%nat -> 0 <= o < 6 -> 0 <= s < 4 ^ Z.of_nat n ->
+  exists l, get_pentagon_vertices QInst 0 0 (s_to_anchor s n o) = Some l /\
+    let t := tau_of (s_to_anchor s n o) in
+    let ij := face_to_ij QInst (get_center QInst l) in
+    Forall2 (fun p q : Q * Q => fst p == fst q /\ snd p == snd q)%Q l (canon_tile t) /\
+    in_tri (1 # 10) t (fst ij) (snd ij) /\
+    (0 <= fst (fst t) /\ 0 <= snd (fst t) /\ fst (fst t) + snd (fst t) + (if snd t then 1 else 2) <= 2 ^ Z.of_nat n).
+Proof. exact (cell_is_canonical_tile n o s). Qed.
+Print Assumptions C03_cell_is_canonical_tile.
+
+Theorem C03_positions_distinct_triangles (n : nat) (o s1 s2 : Z) :
+  (1 <= n <= 29)%nat -> 0 <= o < 6 -> 0 <= s1 < 4 ^ Z.of_nat n -> 0 <= s2 < 4 ^ Z.of_nat n ->
+  tau_of (s_to_anchor s1 n o) = tau_of (s_to_anchor s2 n o) -> s1 = s2.
+Proof. exact (tau_injective n o s1 s2). Qed.
+Print Assumptions C03_positions_distinct_triangles.
+
+(* the periodic tiling itself: two different canonical tiles, anywhere in the lattice *)
+Theorem C03_canonical_tiles_eps_disjoint (t1 t2 : (Z * Z) * bool) : t1 <> t2 ->
+  forall w : Q * Q,
+    ~ (Forall (fun c => (1 # 18014398509481984) < c)%Q (crosses QInst (canon_tile t1) w) /\
+       Forall (fun c => (1 # 18014398509481984) < c)%Q (crosses QInst (canon_tile t2) w)).
+Proof. exact (canon_disjoint t1 t2). Qed.
+Print Assumptions C03_canonical_tiles_eps_disjoint.
+
+(* ---- no gaps (Hilbert/TilingCover.v).  Bq x y = BASIS * (x, y) for rational lattice coordinates.  Every
+   point of the unit lattice triangle ((i, j), u) lies in the canonical tile of that triangle, of the other half
+   of its cell, or of one named neighbour (nbrs), with every edge cross product >= -2^-54 (that is, at most
+   1.3e-16 lattice units outside); hence every point of the plane lies in a canonical tile in this sense.
+   With 0 in place of 2^-54 this is false in the exact model: C03_plane_exact_cover_refuted. *)
+From A5 Require Import Hilbert.TilingCover.
+Open Scope Z_scope.
+
+Theorem C03_triangle_covered (i j : Z) (u : bool) (X Y : Q) :
+  (0 <= X)%Q -> (0 <= Y)%Q -> (if u then X + Y <= 1 else X <= 1 /\ Y <= 1 /\ 1 <= X + Y)%Q ->
+  exists t', In t' (nbrs ((i, j), u)) /\
+    Forall (fun c => - (1 # 18014398509481984) <= c)%Q
+           (crosses QInst (canon_tile t') (Bq (inject_Z i + X) (inject_Z j + Y))).
+Proof. exact (triangle_cover i j u X Y). Qed.
+Print Assumptions C03_triangle_covered.
+
+Theorem C03_plane_covered (x y : Q) :
+  exists t, Forall (fun c => - (1 # 18014398509481984) <= c)%Q (crosses QInst (canon_tile t) (Bq x y)).
+Proof. exact (plane_cover x y). Qed.
+Print Assumptions C03_plane_covered.
+
+(* BASIS * (1/2, 1/2) = (BASIS[0][0], 0) lies in no canonical tile, boundaries included *)
+Theorem C03_plane_exact_cover_refuted :
+  forall t : (Z * Z) * bool, ~ Forall (fun c => - 0 <= c)%Q (crosses QInst (canon_tile t) (LocateProofs.Bm 0, 0%Q)).
+Proof. exact plane_exact_cover_refuted. Qed.
+Print Assumptions C03_plane_exact_cover_refuted.
+
+(* ---- cells <-> lattice triangles: for each orientation the 4^n positions correspond one-to-one to the 4^n unit
+   lattice triangles of the quintant triangle (in_quintant); the six orientations enumerate the same pentagons;
+   a point of a lattice triangle of the quintant lies (up to 2^-54) in a cell of the quintant whenever the
+   covering tile's triangle is inside the quintant triangle *)
+Theorem C03_every_triangle_is_a_cell (n : nat) (o : Z) (t : (Z * Z) * bool) :
+  (1 <= n <= 29)%nat -> 0 <= o < 6 ->
+  0 <= fst (fst t) /\ 0 <= snd (fst t) /\ fst (fst t) + snd (fst t) + (if snd t then 1 else 2) <= 2 ^ Z.of_nat n ->
+  exists s, 0 <= s < 4 ^ Z.of_nat n /\ tau_of (s_to_anchor s n o) = t.
+Proof. exact (tau_surjective n o t). Qed.
+Print Assumptions C03_every_triangle_is_a_cell.
+
+Theorem C03_orientations_same_tiles (n : nat) (o1 o2 s1 : Z) :
+  (1 <= n <= 29)%nat -> 0 <= o1 < 6 -> 0 <= o2 < 6 -> 0 <= s1 < 4 ^ Z.of_nat n ->
+  exists s2 l1 l2, 0 <= s2 < 4 ^ Z.of_nat n /\
+    get_pentagon_vertices QInst 0 0 (s_to_anchor s1 n o1) = Some l1 /\
+    get_pentagon_vertices QInst 0 0 (s_to_anchor s2 n o2) = Some l2 /\
+    Forall2 (fun p q : Q * Q => fst p == fst q /\ snd p == snd q)%Q l1 l2.
+Proof. exact (orientations_same_tiles n o1 o2 s1). Qed.
+Print Assumptions C03_orientations_same_tiles.
+
+Theorem C03_cell_cover (n : nat) (o : Z) (t : (Z * Z) * bool) (X Y : Q) :
+  (1 <= n <= 29)%nat -> 0 <= o < 6 -> in_quintant n t ->
+  (0 <= X)%Q -> (0 <= Y)%Q -> (if snd t then X + Y <= 1 else X <= 1 /\ Y <= 1 /\ 1 <= X + Y)%Q ->
+  let P := Bq (inject_Z (fst (fst t)) + X) (inject_Z (snd (fst t)) + Y) in
+  exists t', In t' (nbrs t) /\
+    Forall (fun c => - (1 # 18014398509481984) <= c)%Q (crosses QInst (canon_tile t') P) /\
+    (in_quintant n t' ->
+     exists s l, 0 <= s < 4 ^ Z.of_nat n /\ get_pentagon_vertices QInst 0 0 (s_to_anchor s n o) = Some l /\
+       tau_of (s_to_anchor s n o) = t' /\
+       Forall (fun c => - (1 # 18014398509481984) <= c)%Q (crosses QInst l P)).
+Proof. exact (cell_cover n o t X Y). Qed.
+Print Assumptions C03_cell_cover.
